@@ -91,6 +91,9 @@ func finish(prop, tier string, seed int64, ps *PropSpec, l *loaded, results []*H
 		}
 	}
 	replayRoot := filepath.Join(verifDir, "replays", prop)
+	if v := os.Getenv("VERIF_REPLAYS"); v != "" { // framework self-tests against seeded changes keep their replays elsewhere
+		replayRoot = filepath.Join(v, prop)
+	}
 	os.RemoveAll(replayRoot)
 	nViol, nKnown, nMismatch, nValidated := 0, 0, 0, 0
 	knownPrinted := map[string]bool{}
